@@ -77,10 +77,14 @@ def handle (line : String) : String :=
         let cert := certOk β D1 D2
         let gd := groundDiffers D1 D2
         -- the implementation's answer is determined (for every hash function) when a gate fails, and when
-        -- the pair is a certified relabelling (theorems iso_false_*, iso_relabel*); otherwise advisory
+        -- the pair is a certified relabelling (theorems iso_false_*, iso_relabel*).  Otherwise it is what colour
+        -- refinement computes: a function of the structure alone unless two different event traces collide in
+        -- 64 bits (SipHash there, `mixHash` here), so it is compared as a *model* field (a difference is a
+        -- model/implementation disagreement, never a "failing input"): this ties makeB2q / evQuad / makeMap /
+        -- eqClasses / refine to dataset.rs and hash.rs, not only the gates.
         reply ([kvN "n1" D1.length, kvN "n2" D2.length, kvB "size_gate" sg, kvB "zip_gate" zg,
                 kvB "bcount_gate" bg, kvB "gates" g, kv "adv_iso" advS, kvB "cert" cert, kvB "ground_differs" gd]
-               ++ (if !g then [kv "iso" "0"] else if cert then [kv "iso" advS] else [])
+               ++ [kv "iso" (if !g then "0" else advS)]
                ++ (if cert then [kv "o.iso" "1"] else if gd then [kv "o.iso" "0"] else []))
       | _ => "bad-op"
     | _, _ => "bad-op"
